@@ -100,6 +100,10 @@ func Bases(tier string) []*T {
 	}
 	out = append(out, namedLeaves...)
 	out = append(out, Grow(Cfg{}, namedLeaves, keys[:1], true)...)
+	// named pointer, slice, map and byte-slice types: same encoding as their unnamed twins
+	nc := NamedContainers()
+	out = append(out, nc...)
+	out = append(out, Grow(Cfg{}, nc, keys[:1], false)...)
 	d1all := Grow(Cfg{}, all, keys, true)
 	out = append(out, d1all...)
 	d1 := Grow(Cfg{}, rep, []*T{Leaf(KString)}, true)
@@ -203,6 +207,18 @@ func Recursive() []Item {
 			Item{T: Struct(F{Name: "F1", Index: 1, T: Ptr(t)}, F{Name: "Z", Index: 9, T: L(KInt)}), Base: t, Pos: "recursive"})
 	}
 	return out
+}
+
+// NamedContainers lists the named composite types of package gen as type expressions.
+func NamedContainers() []*T {
+	return []*T{
+		{K: KPtr, Named: "gen.NPtrInt", Elem: Leaf(KInt)}, {K: KPtr, Named: "gen.NPtrStr", Elem: Leaf(KString)},
+		{K: KSlice, Named: "gen.NSliceF64", Elem: Leaf(KFloat64)}, {K: KSlice, Named: "gen.NSliceInt", Elem: Leaf(KInt)}, {K: KSlice, Named: "gen.NSliceStr", Elem: Leaf(KString)},
+		{K: KMap, Named: "gen.NMapSI", Key: Leaf(KString), Elem: Leaf(KInt)},
+		// a NAMED byte-slice type is not the registered []byte type: plenc (documentedly keyed on the exact
+		// type, falling back on the kind) treats it as a slice of uint8, i.e. packed varints
+		{K: KSlice, Named: "gen.NBytes", Elem: Leaf(KUint8)},
+	}
 }
 
 // NamedLeafNames maps a basic kind to the registered name of its named twin (package gen).
